@@ -432,3 +432,65 @@ def reordered(expr: ast.AST) -> bool:
     """The iteration source is explicitly re-ordered (reversed / sorted / a set / a reversing slice)."""
     t = norm(expr)
     return any(w in t for w in ("reversed(", "sorted(", "set(", "[::-1]", "frozenset("))
+
+
+def _atom(e: ast.AST) -> tuple[str, bool]:
+    """(positive text, polarity) of an atomic condition."""
+    return cond(e)
+
+
+def bool_atoms(e: ast.AST) -> list[str]:
+    """Positive texts of the atomic conditions of a boolean expression (through and/or/not, bool())."""
+    from .loader import dotted
+
+    if isinstance(e, ast.BoolOp):
+        out: list[str] = []
+        for v in e.values:
+            for a in bool_atoms(v):
+                if a not in out:
+                    out.append(a)
+        return out
+    if isinstance(e, ast.UnaryOp) and isinstance(e.op, ast.Not):
+        return bool_atoms(e.operand)
+    if isinstance(e, ast.Call) and dotted(e.func) == "bool" and len(e.args) == 1:
+        return bool_atoms(e.args[0])
+    return [_atom(e)[0]]
+
+
+def bool_eval(e: ast.AST, env: dict[str, bool]) -> bool | None:
+    """Truth value of a boolean expression under an assignment of its atoms (None when an atom is not assigned).
+
+    Python's and/or return operands; here only the truth value matters (the expression is used as a condition)."""
+    from .loader import dotted
+
+    if isinstance(e, ast.BoolOp):
+        vals = [bool_eval(v, env) for v in e.values]
+        if isinstance(e.op, ast.And):
+            if any(v is False for v in vals):
+                return False
+            return None if any(v is None for v in vals) else True
+        if any(v is True for v in vals):
+            return True
+        return None if any(v is None for v in vals) else False
+    if isinstance(e, ast.UnaryOp) and isinstance(e.op, ast.Not):
+        v = bool_eval(e.operand, env)
+        return None if v is None else not v
+    if isinstance(e, ast.Call) and dotted(e.func) == "bool" and len(e.args) == 1:
+        return bool_eval(e.args[0], env)
+    if isinstance(e, ast.Constant) and isinstance(e.value, bool):
+        return e.value
+    t, pol = _atom(e)
+    if t not in env:
+        return None
+    return env[t] == pol
+
+
+def all_defs_text(fn_node: ast.AST, name: str) -> str:
+    """Text of every value assigned to local `name` (for names with several definitions, e.g. one per branch)."""
+    out = []
+    for s in ast.walk(fn_node):
+        if isinstance(s, ast.Assign) and any(isinstance(t, ast.Name) and t.id == name for t in s.targets):
+            out.append(norm(s.value))
+        elif isinstance(s, ast.AnnAssign) and isinstance(s.target, ast.Name) and s.target.id == name and s.value is not None:
+            out.append(norm(s.value))
+    return " || ".join(out)
